@@ -193,12 +193,13 @@ func smallRefs() []Ref {
 // ---------------------------------------------------------------- the two decisions
 
 type world struct {
-	layout string
-	rig    *planrig.Rig
-	ns     *server.Namespace
-	se     *server.SessionExecutor
-	memo   map[string]verdict // minimisation re-visits the same plain texts over and over
-	canon  *world
+	layout  string
+	rig     *planrig.Rig
+	ns      *server.Namespace
+	se      *server.SessionExecutor
+	memo    map[string]verdict // minimisation re-visits the same plain texts over and over
+	canon   *world
+	wantSig bool
 }
 
 // canonical is a world with the mod layout (the world itself if it already is one).
@@ -222,6 +223,10 @@ func newWorld(layout string) *world {
 	if err != nil {
 		ev.Fatalf("server.NewNamespace: %v", err)
 	}
+	// every plan of this world is built on the router inside the server.Namespace
+	if rig, err = planrig.NewAround(l, rig.Namespace, ns.GetRouter()); err != nil {
+		ev.Fatalf("rig: %v", err)
+	}
 	return &world{layout: layout, rig: rig, ns: ns, se: server.VerifC06Executor(ns), memo: map[string]verdict{}}
 }
 
@@ -233,6 +238,7 @@ type verdict struct {
 	fullShard   bool
 	sentTo      string
 	planErr     string
+	planSig     string // route of the plan BuildPlan made (history family only)
 }
 
 func (w *world) decide(c Case) verdict {
@@ -265,6 +271,13 @@ func (w *world) decide(c Case) verdict {
 	}
 	if berr != nil && !v.fullShard && !v.noDB && !errors.Is(berr, planrig.ErrPanic) {
 		ev.Fatalf("BuildPlan fails on a statement the Checker calls unsharded: %q: %v", full, berr)
+	}
+	if w.wantSig && berr == nil {
+		if rt, err := w.rig.RouteOf(bp); err == nil {
+			v.planSig = rt.Signature()
+		} else {
+			v.planSig = "ERR: " + err.Error()
+		}
 	}
 	if isUnshard && p != nil {
 		if rt, err := w.rig.RouteOf(p); err == nil && len(rt.Targets) == 1 {
@@ -504,6 +517,18 @@ func main() {
 	r.Assume("\"the full SQL analysis plans it as involving a sharded table\" = Gaea's parser accepts the text and plan.NewChecker(session db, router).IsShard() is true (what plan.BuildPlan itself uses; cross-checked against BuildPlan's result on every case); unparseable texts and texts the full analysis answers with 'no database selected' are skipped and counted")
 	r.Assume("the pre-check is observed as on the COM_QUERY path: trailing ';' trimmed, statement type from parser.Preview, then the real SessionExecutor.preBuildUnshardPlan of a session executor bound to a real server.Namespace (mod and mycat_mod layouts, 2 slices x 2 tables, tables t sharded / t2 linked / g global / u unsharded in database db, db2 without rules)")
 
+	var probe struct {
+		Family string `json:"family"`
+	}
+	if r.ReplayCase(&probe) && probe.Family == "history" {
+		var hc HistCase
+		r.ReplayCase(&hc)
+		fresh := histDecide(hc.Layout, nil, hc.Stmt)
+		bad := checkHistory(r, hc.Layout, hc.Hist, hc.Stmt, fresh, false)
+		fmt.Printf("replay (history): %d statement(s), then %q: violation=%v\n", len(hc.Hist), hc.Stmt.text(), bad)
+		r.Set("evaluations", 1)
+		r.Finish()
+	}
 	var rc Case
 	if r.ReplayCase(&rc) {
 		w := newWorld(rc.Layout)
@@ -549,11 +574,43 @@ func main() {
 		}
 	}
 
+	// history family (history.go): S after 1-2 other statements on the same namespace
+	type histItem struct {
+		layout string
+		s      Case
+	}
+	var histItems []histItem
+	for _, layout := range []string{"mod", "range", "mycat_mod"} {
+		for _, s := range histSubjects(layout) {
+			histItems = append(histItems, histItem{layout, s})
+		}
+	}
+	switch os.Getenv("C06_FAMILY") { // development aid
+	case "history":
+		items = nil
+		r.Capped("C06_FAMILY=history: pristine-namespace families skipped")
+	case "pristine":
+		histItems = nil
+		r.Capped("C06_FAMILY=pristine: history family skipped")
+	}
+
 	var mu sync.Mutex
 	var total stats
+	var htotal histStats
 	tplShard := map[string]int64{}
 	samples := 0
-	n := enum.Parallel(len(items), r.TimeUp, func(ii int) {
+	n := enum.Parallel(len(items)+len(histItems), r.TimeUp, func(ii int) {
+		if ii >= len(items) {
+			hi := histItems[ii-len(items)]
+			var hs histStats
+			runHistory(r, hi.layout, hi.s, &hs)
+			mu.Lock()
+			htotal.histories += hs.histories
+			htotal.plans += hs.plans
+			htotal.sharded += hs.sharded
+			mu.Unlock()
+			return
+		}
 		it := items[ii]
 		w := newWorld(it.layout)
 		var st stats
@@ -648,7 +705,7 @@ func main() {
 		tplShard[it.tpl.ID] += st.fullShard
 		mu.Unlock()
 	})
-	if n < len(items) || r.TimeUp() {
+	if n < len(items)+len(histItems) || r.TimeUp() {
 		r.Capped(fmt.Sprintf("%d of %d (layout, template, session, keyword case, lead) items completed", n, len(items)))
 	}
 	if debugSigs != nil {
@@ -663,7 +720,7 @@ func main() {
 	}
 	// non-vacuity: the pre-check must both short-cut and refuse, and every template must have
 	// produced parseable sharded statements
-	if !r.TimeUp() {
+	if !r.TimeUp() && len(items) > 0 {
 		if total.agreeUnshard == 0 || total.agreeShard == 0 {
 			ev.Fatalf("vacuous: pre-check short-cut %d unsharded statements and refused %d sharded ones", total.agreeUnshard, total.agreeShard)
 		}
@@ -673,8 +730,12 @@ func main() {
 			}
 		}
 	}
-	r.Set("evaluations", total.evals)
-	r.Set("distinct_nontrivial", total.fullShard)
+	r.Set("history_cases", htotal.histories)
+	r.Set("history_plans", htotal.plans)
+	r.Set("history_cases_on_sharded_statements", htotal.sharded)
+	r.Set("history_rule", "history family: layouts mod, range, mycat_mod; subjects = per template the instances {all unsharded, sharded table first, global table first, upper-case sharded name, qualified without session db, sharded table last, sharded + linked}; each subject S is decided on a fresh server.Namespace after every one-statement prefix over a 16-statement alphabet (INSERT VALUES single/multi-row, NOT BETWEEN with a gap, IN, <, full scan, DELETE, insert into the linked child, global SELECT/UPDATE, unsharded fast-path SELECT/INSERT, other-database fast path, upper-case name, no session db, session db2) and every ordered two-statement prefix over 6 of them, all sent through the real getPlan; oracles: the C06 oracle for S and verdict(S after H) == verdict(S fresh) including the route of the plan BuildPlan makes")
+	r.Set("evaluations", total.evals+htotal.histories)
+	r.Set("distinct_nontrivial", total.fullShard+htotal.sharded)
 	r.Set("skipped_unparseable", total.parseErr)
 	r.Set("skipped_without_plan", total.withoutPlan)
 	r.Set("no_database_selected", total.noDB)
